@@ -1,0 +1,67 @@
+//go:build verif
+
+package core
+
+import "github.com/truora/minidyn/types"
+
+// VerifIndexDump is a read-only copy of the internal state of a secondary index.
+type VerifIndexDump struct {
+	Name       string
+	Type       string
+	HashKey    string
+	RangeKey   string
+	SortedKeys []string
+	Refs       map[string]string
+}
+
+// VerifTableDump is a read-only copy of the internal state of a table.
+type VerifTableDump struct {
+	Name          string
+	HashKey       string
+	RangeKey      string
+	AttributesDef map[string]string
+	SortedKeys    []string
+	Data          map[string]map[string]*types.Item
+	Indexes       []VerifIndexDump
+	UseNative     bool
+}
+
+// VerifDump returns a copy of the table's internal state (verification hook, read-only).
+func VerifDump(t *Table) VerifTableDump {
+	d := VerifTableDump{
+		Name:          t.Name,
+		HashKey:       t.KeySchema.HashKey,
+		RangeKey:      t.KeySchema.RangeKey,
+		AttributesDef: map[string]string{},
+		SortedKeys:    append([]string{}, t.SortedKeys...),
+		Data:          map[string]map[string]*types.Item{},
+		UseNative:     t.UseNativeInterpreter,
+	}
+
+	for k, v := range t.AttributesDef {
+		d.AttributesDef[k] = v
+	}
+
+	for k, v := range t.Data {
+		d.Data[k] = copyItem(v)
+	}
+
+	for name, ix := range t.Indexes {
+		id := VerifIndexDump{
+			Name:       name,
+			Type:       string(ix.typ),
+			HashKey:    ix.keySchema.HashKey,
+			RangeKey:   ix.keySchema.RangeKey,
+			SortedKeys: append([]string{}, ix.sortedKeys...),
+			Refs:       map[string]string{},
+		}
+
+		for k, v := range ix.refs {
+			id.Refs[k] = v
+		}
+
+		d.Indexes = append(d.Indexes, id)
+	}
+
+	return d
+}
